@@ -29,6 +29,10 @@ CHECKS.update({
  "C17": ("fault_enumeration", "The C06/C09 session space (success and every fault kind/position of login and later requests, all five types) is replayed with secrets that have distinct URL-encoded forms; every file below basedir/log directories plus stdout/stderr is byte-scanned for the plain and encoded forms of password, API key, session token and cookie.", SESS_NOTE, "model-enumerated fault scenarios (Session.tla) replayed on real sessions + byte scan for secrets", "§7 C17"),
 })
 
+CHECKS.update({
+ "C15": ("model_checking", "IosReload.tla (arm, transmissions of one or two lines, banners per line, re-arm, cancel, write memory) is model-checked; every change line of a real IOS approve x banner form (bare at every byte offset of the echo, banner + fresh prompt before / after the echo) x kind (2:00, 1:00), and pairs of banners, are replayed against the simulator; IosReloadTrace.tla checks on the transcript: every change line under an armed reload, write memory only after cancel, nothing pending after success, one-minute warning answered by `do reload in N` before the next transmission, same commands delivered and same exit status as the banner-free run.", SESS_NOTE, SESS_TECH, "§7 C15"),
+})
+
 NA_REASONS = {
  "C20": "quantifies over mutated bytes fed to parsers with oracle 'process did not panic': no state machine to specify; needs mutation fuzzing, a different technique (DESIGN.md §8)",
 }
